@@ -23,7 +23,12 @@ echo "== (2) patch + demo"
 if eval "timeout 1800 $RUN" > /tmp/seed/$ID-c2.log 2>&1; then echo "PASS (unexpected: demo does not detect the change)"; exit 1; else echo "FAIL (as required)"; grep -m3 -E "Error:|panic|--- FAIL" /tmp/seed/$ID-c2.log; fi
 rm $DIR/zz_seed_demo_test.go
 echo "== (3) patch + existing tests: $PKGS"
-if timeout 3000 go test -vet=off -count=1 $PKGS > /tmp/seed/$ID-c3.log 2>&1; then echo "PASS (as required)"; else echo "FAIL (existing tests break)"; grep -E "^(FAIL|--- FAIL)" /tmp/seed/$ID-c3.log | head; exit 1; fi
+if timeout 3000 go test -vet=off -count=1 $PKGS > /tmp/seed/$ID-c3.log 2>&1; then echo "PASS (as required)"; else
+  # client/cli packages time out (600 s) when the machine is loaded: re-run the failed packages alone, once
+  FAILED=$(grep -E "^FAIL\s+github.com" /tmp/seed/$ID-c3.log | awk '{print $2}' | sed 's|github.com/elys-network/elys|.|' | sort -u | tr '\n' ' ')
+  echo "first run failed in: $FAILED; re-running those alone"
+  if [ -n "$FAILED" ] && timeout 3000 go test -vet=off -count=1 -p 2 $FAILED > /tmp/seed/$ID-c3b.log 2>&1; then echo "PASS on re-run (as required)"; else echo "FAIL (existing tests break)"; grep -E "^(FAIL|--- FAIL)" /tmp/seed/$ID-c3.log /tmp/seed/$ID-c3b.log | head; exit 1; fi
+fi
 mkdir -p /verif/seeded/$NAME
 cp $OUT/patch.diff $OUT/demo_test.go /verif/seeded/$NAME/
 python3 - <<P
